@@ -1,3 +1,5 @@
+//go:build g_keccak
+
 package main
 
 import (
